@@ -47,6 +47,19 @@ def run(tier, seed, replay=None):
                 continue
             a = O.gen_obj(rng, pardim=pd, kinds=kinds, nint_max=2, pmax={1: 4, 2: 4, 3: 3}[pd], big_periodic=bigp)
             b = O.gen_obj(rng, pardim=pd, kinds=kinds, nint_max=2, pmax={1: 4, 2: 4, 3: 3}[pd], big_periodic=bigp)
+            if rng.random() < 0.2:
+                # near-copies: the second operand has the structure of the first (orders, knot counts, multiplicities) with
+                # its interior knots moved by 1e-7 .. 1e-6 of the domain: thousands of knot tolerances apart (so both values
+                # must appear in the common knot vector), yet equal to 5 digits -- exact thirds against 0.333333 from a file
+                a = O.gen_obj(rng, pardim=pd, kinds=['open'], nint_max=3, pmax={1: 4, 2: 4, 3: 3}[pd])
+                b = dict(a, bases=[dict(x_, knots=list(x_['knots'])) for x_ in a['bases']], cps=[list(reversed(pt_)) if False else list(pt_) for pt_ in reversed(a['cps'])])
+                for x_ in b['bases']:
+                    s_, e_ = O.domain(x_)
+                    mv_ = {}
+                    for k_ in sorted(set(x_['knots'])):
+                        if s_ < k_ < e_:
+                            mv_[k_] = k_ + (e_ - s_) * rng.choice([-1, 1]) * Fr(1, 2 ** rng.choice([20, 22, 23]))
+                    x_['knots'] = [mv_.get(k_, k_) for k_ in x_['knots']]
             todo.append((a, b, None))
     for sa, sb, forced in todo:
         pd = len(sa['bases'])
